@@ -12,6 +12,7 @@ import (
 	"strconv"
 	"strings"
 
+	"github.com/tmpim/casket/caskethttp/staticfiles"
 	"github.com/tmpim/casket/zzverif/verifrt"
 )
 
@@ -280,4 +281,65 @@ func VerifH18Negotiation() {
 		verifrt.Assert(enc == "" && bytes.Equal(w.body, b.chunks[0]), "identity-body-unchanged")
 	}
 	verifrt.Observe("neg", enc, offered) // (the coded length differs between the gzip model and real gzip)
+}
+
+// VerifH18cStaticSiblings: the gzip middleware in front of the real static file server, which may
+// itself answer with a precompressed sibling (a.gz, a.zst): the client receives either the file
+// under a coding it offered -- applied exactly once -- or the identity file; a precompressed sibling
+// is never compressed again and never sent to a client that did not offer its coding.
+//
+//	<root>/a.txt "AA"   <root>/a.txt.gz "G" (stands for gzip(AA))   <root>/a.txt.zst "S"
+func VerifH18cStaticSiblings() {
+	base := verifrt.FSRoot()
+	root := base + "/site"
+	verifrt.FSPut(root+"/a.txt", []byte("AA"))
+	verifrt.FSPut(root+"/a.txt.gz", []byte("G"))
+	verifrt.FSPut(root+"/a.txt.zst", []byte("S"))
+	verifrt.FSPut(root+"/b.txt", []byte("BB")) // no siblings
+	fsrv := staticfiles.FileServer{Root: http.Dir(root)}
+	cfg := Config{RequestFilters: []RequestFilter{DefaultExtFilter()}, ResponseFilters: []ResponseFilter{SkipCompressedFilter{}}}
+	if verifrt.Bool("min-length") {
+		cfg.ResponseFilters = append(cfg.ResponseFilters, LengthFilter(3))
+	}
+	g := Gzip{Next: fsrv, Configs: []Config{cfg}}
+	accept := []string{"", "gzip", "zstd", "zstd, gzip", "gzip, zstd", "br", "identity"}[verifrt.Choose("accept", 7)]
+	p := []string{"/a.txt", "/b.txt"}[verifrt.Choose("path", 2)]
+	method := []string{"GET", "HEAD"}[verifrt.Choose("method", 2)]
+	r := &http.Request{Method: method, URL: &url.URL{Path: p}, Header: http.Header{}, Host: "h"}
+	if accept != "" {
+		r.Header.Set("Accept-Encoding", accept)
+	}
+	w := &zzClient{}
+	g.ServeHTTP(w, r)
+	enc := w.Sent().Get("Content-Encoding")
+	want := "AA"
+	if p == "/b.txt" {
+		want = "BB"
+	}
+	verifrt.Assert(w.status == 200, "file-served")
+	if method == "HEAD" {
+		// (net/http discards whatever a handler writes in reply to HEAD)
+		verifrt.Observe("sibling", enc)
+		return
+	}
+	switch enc {
+	case "":
+		verifrt.Assert(string(w.body) == want, "identity-body-is-the-file")
+	case "gzip":
+		verifrt.Assert(strings.Contains(accept, "gzip"), "coding-was-offered")
+		if string(w.body) != "G" || p != "/a.txt" {
+			// not the precompressed sibling: the middleware's own coding of the identity file
+			dec, ok := zzGunzip(w.body)
+			verifrt.Assert(ok && string(dec) == want, "coded-exactly-once")
+		}
+	case "zstd":
+		verifrt.Assert(strings.Contains(accept, "zstd"), "coding-was-offered")
+		verifrt.Assert(string(w.body) == "S" && p == "/a.txt", "zstd-sibling-sent-as-is")
+	default:
+		verifrt.Fail("unknown-coding-label")
+	}
+	if cl := w.Sent().Get("Content-Length"); cl != "" {
+		verifrt.Assert(cl == strconv.Itoa(len(w.body)), "content-length-absent-or-correct")
+	}
+	verifrt.Observe("sibling", enc)
 }
